@@ -44,6 +44,7 @@ TEMPLATES = {
     "mix": (2, lambda s, t: s * t - 1),
     "rsub": (1, lambda s: 10 - s),
     "div": (2, lambda s, t: s / (t + 100)),
+    "same": (1, lambda s: s),          # an alias: the target receives the very same object as the source
 }
 
 INPLACE = {"+=": operator.iadd, "*=": operator.imul, "-=": operator.isub}
@@ -264,11 +265,13 @@ class World:
 def history_script(ops, tail=""):
     """standalone reproduction of a history on the real library"""
     lines = ["import xdeps, operator",
-             "class Obj:\n    def __init__(self, **kw): self.__dict__.update(kw)",
+             "class Obj:\n    def __init__(self, **kw): self.__dict__.update(kw)\n"
+             "    def __eq__(self, o): return type(o).__name__ == 'Obj' and self.__dict__ == o.__dict__\n"
+             "    def __repr__(self): return 'Obj(%r)' % (self.__dict__,)",
              "d = {'a': 1.0, 'b': 2.0, 'c': 3.0, 'n': {'x': 1.5, 'y': 2.5, 'z': 4.0}, 'l': [1.0, 2.0, 3.0], 'o': Obj(p=1.25, q=2.25)}",
              "m = xdeps.Manager(); r = m.ref(d, 'd')"]
     src = {"dbl": "2 * {0}", "inc": "{0} + 1", "neg": "-{0}", "sum": "{0} + {1}", "mix": "{0} * {1} - 1",
-           "rsub": "10 - {0}", "div": "{0} / ({1} + 100)"}
+           "rsub": "10 - {0}", "div": "{0} / ({1} + 100)", "same": "{0}"}
 
     def rs(loc):
         s = "r"
